@@ -20,7 +20,7 @@ def M(level, claim, note, explanation, trusted=(), assumptions=(), externals=())
 
 META = {
     "C01": M("other",
-             "Proved for all inputs (131 obligations): every setter route that ends in Config._set_value / __setattr__ / _set_default_value / load_tree stores exactly the value the "
+             "Proved for all inputs (132 obligations): every setter route that ends in Config._set_value / __setattr__ / _set_default_value / load_tree stores exactly the value the "
              "field's validate returned, which satisfies accepts(field, .), and changes no other key or object (frame); the per-class meaning of accepts for StringField (all "
              "options), NumberField (IntField/FloatField/PortField: type, min, max with exact int/float comparison), BoolField, BytesField, ChallengeField; typed lists: every item "
              "stored by append / insert / index assignment / extend / construction satisfies the item field, typed dicts: item assignment and setdefault. NOT proved: the net / file "
@@ -126,7 +126,7 @@ META = {
              "(every leaf path x rejected value types x 5 routes x 5 formats).",
              "ref_path arithmetic on strings is bounded", "exception-class obligations on the setter chain"),
     "C16": M("other",
-             "Proved (48 obligations): Config._get_value / BaseField.__getval__ / Config.__getitem__ return the stored value of the named field (plain key = attribute access, "
+             "Proved (45 obligations): Config._get_value / BaseField.__getval__ / Config.__getitem__ return the stored value of the named field (plain key = attribute access, "
              "dotted path = chained access) and are read-only; Config.__setitem__ with a plain key is exactly attribute assignment (every clause of _set_value) and with a dotted "
              "path assigns in the sub-configuration and leaves its own level alone; cmdline_args_override leaves the parsed arguments untouched, normalises a single ignore name to a "
              "list and changes nothing when no option was supplied (loop invariant). Bounded, not proved: field enumeration (get_all_fields: recursive list of tuples), the generated "
